@@ -216,6 +216,24 @@ fn mutation_cases(env: &Env, chain: &Chain) -> Vec<(String, Vec<TransactionView>
             case(label, vec![], tx, ok);
         }
     }
+    // cellbase-shaped submissions: the only input is the null out point (with the block number as
+    // since, as a real cellbase has it), with 0 / 1 / 2 witnesses; and the null out point beside a
+    // real input. None of them spends a cell the client knows.
+    for (label, n_witnesses, with_real) in [("cellbase-shaped/no-witness", 0usize, false), ("cellbase-shaped/one-witness", 1, false), ("cellbase-shaped/two-witnesses", 2, false), ("null-out-point-beside-a-known-input", 1, true)] {
+        let mut b = ckb_types::core::TransactionBuilder::default().cell_dep(dep.clone());
+        if with_real {
+            b = b.input(packed::CellInput::new(op0.clone(), 0));
+        }
+        b = b.input(packed::CellInput::new_cellbase_input(chain.tip_number() + 1));
+        for i in 0..n_witnesses {
+            b = b.witness(ckb_types::bytes::Bytes::from(vec![i as u8; 8]).pack());
+        }
+        let tx = b
+            .output(packed::CellOutput::new_builder().capacity(1_000_000_0000_0000u64.pack()).lock(s.b.clone()).build())
+            .output_data(Default::default())
+            .build();
+        case(label, vec![], tx, false);
+    }
     case("no-inputs", vec![], build_tx(&[dep.clone()], &[], &[OutSpec::lock(&s.b, 100_0000_0000)], 12), false);
     case("no-outputs", vec![], build_tx(&[dep.clone()], &[op0.clone()], &[], 13), false);
     case("wrong-version", vec![], base.as_advanced_builder().version(1u32.pack()).build(), false);
